@@ -1061,6 +1061,10 @@ func pairHistories(w *run.Worker, r *run.Runner, tier string) {
 	var count int64
 	pristine := mkOptions()
 	for pi, p := range alpha {
+		if time.Now().After(r.Deadline) {
+			r.Cap(fmt.Sprintf("pair-histories: first calls %d of %d completed before the tier deadline", pi, len(alpha)))
+			break
+		}
 		w.Begin("pair-histories", p.Src)
 		w.Nontrivial()
 		for qi, q := range alpha {
